@@ -16,6 +16,6 @@ def one(d):
     m["report_lines"] = r.get("report", [])
     json.dump(m, open(os.path.join(d, "meta.json"), "w"), indent=1)
     return m["id"], r["status"], r.get("fired")
-with ThreadPoolExecutor(4) as ex:
+with ThreadPoolExecutor(10) as ex:
     for x in ex.map(one, dirs):
         print(*x)
